@@ -32,6 +32,9 @@ Multiplets == IsMultipletList(E, rg, thg)
 TraceBlocksContain == InsideTraceBlocks(E, thg, thc)
 SeaWhole == \A emin \in (-1)..(EMAX + 1) : \A emax \in emin..(EMAX + 1) : SeaNeverCuts(E, thg, thc, emin, emax)
 MixSymmetric == \A p \in MayMix(E, thg) : <<p[2], p[1]>> \in MayMix(E, thg) /\ <<p[1], p[1]>> \in MayMix(E, thg)
+(* degen_Kramers = TRUE: the trace blocks still contain every block of the random gauge (also four-fold points) *)
+KramersTraceBlocksContain == GaugeWithinTrace(thg, thc) => InsideKramersTraceBlocks(E, thg, thc)
+StrictPairsContain == InsideBlocks(rg, StrictPairBlocks(E))       \* must be VIOLATED (strict consecutive pairs cut a four-fold level)
 (* the blocks a tetrahedron calculator traces never cut a block the random gauge may rotate *)
 TracedBlocksAreUnionsOfMultiplets == (TETRA /\ GaugeWithinTrace(thg, thc)) => UnionsOfMultiplets(tet.traced, rg)
 NoMixing == rg = <<>>      \* must be VIOLATED (non-vacuity)
